@@ -35,6 +35,7 @@ namespace ratio
 
   public:
     scope(scope &scp);
+    scope(core &cr, scope &scp); // used by the core, which is its own enclosing scope and cannot be asked for its core while under construction..
     scope(const scope &orig) = delete;
     ~scope();
 
